@@ -159,10 +159,14 @@ Section Load.
 
   Definition impact_reset_equiv := mem_equiv.
 
-  Theorem load_spec st fresh :
+  (* the same, also exposing what start-up leaves on disk *)
+  Theorem load_spec_full st fresh :
     MemInv (mm st) -> DiskInv verify st ->
     exists st', load verify (dd st) fresh = LOk st' /\
-                mem_equiv (mm st') (mm st) /\ MemInv (mm st') /\ DiskInv verify st'.
+                mem_equiv (mm st') (mm st) /\ MemInv (mm st') /\ DiskInv verify st' /\
+                d_keys (dd st') = d_keys (dd st) /\ d_temp (dd st') = d_temp (dd st) /\ d_gca (dd st') = d_gca (dd st) /\
+                d_auths (dd st') = d_auths (dd st) /\ d_stats (dd st') = d_stats (dd st) /\
+                exists rl re, d_reports (dd st) = Some rl /\ d_reports (dd st') = Some (rl ++ re) /\ (forall r, In r re -> In r rl).
   Proof.
     intros I D. pose proof D as D0.
     destruct D as [Kk Kt Kg Kgl Kgz Ks Ka Kf Kr].
@@ -217,6 +221,8 @@ Section Load.
           pose proof (i_dom_rep _ I id) as X. unfold zmem in X. rewrite Qr in X. destruct (zget id (equipment (mm st))); discriminate.
       - intros id. rewrite (i_dom_imp _ I2), (i_dom_imp _ I), T1. unfold zmem. rewrite H1. reflexivity. }
     split; [exact ME|]. split; [exact I2|].
+    split; [|split; [exact K1|]; split; [exact K2|]; split; [exact K3|]; split; [exact K4|]; split; [exact K5|];
+             exists rl, re; split; [reflexivity|]; split; [exact K6 | exact Sub]].
     destruct ME as [M1 M2 M3 M4 M5 M6 M7 M8 M9 M10 M11].
     constructor.
     - rewrite K1. congruence.
@@ -244,5 +250,14 @@ Section Load.
         rewrite replay_idempotent_tail; [apply win_eq_refl| |].
         * intros r Hr'. apply for_dev_In in Hr'. apply for_dev_In. destruct Hr' as [X1 Y1]. split; [apply Sub; exact X1 | exact Y1].
         * intros r Hr'. apply for_dev_In in Hr'. destruct Hr' as [X1 _]. apply (Hrl r X1).
+  Qed.
+
+  Theorem load_spec st fresh :
+    MemInv (mm st) -> DiskInv verify st ->
+    exists st', load verify (dd st) fresh = LOk st' /\
+                mem_equiv (mm st') (mm st) /\ MemInv (mm st') /\ DiskInv verify st'.
+  Proof.
+    intros I D. destruct (load_spec_full st fresh I D) as (st' & L & ME & I' & D' & _).
+    exists st'. split; [exact L|]. split; [exact ME|]. split; assumption.
   Qed.
 End Load.
